@@ -245,11 +245,11 @@ impl Prop for C17 {
         }
         let tie = graph_strategy(&ALL_KINDS, 2, 14, me, &[0, 0, 3], 7);
         let big = graph_strategy(&ALL_KINDS, 15, 40, me, &[0, 3], 6);
-        let wtd = graph_strategy(&ALL_KINDS, 2, 14, me, &[1, 4], 3);
+        let wtd = graph_strategy(&ALL_KINDS, 2, 14, me, &[1, 4, 6, 7], 5);
         let algos = graph_strategy(&ALL_KINDS, 0, 24, me, &[0, 1, 4], 3);
         prop_oneof![
-            12 => (prop_oneof![6 => tie, 1 => big, 3 => wtd], any::<u64>(), prop_oneof![2 => Just(255u8), 1 => any::<u8>()], 0u8..5, any::<bool>()).prop_map(|(g, seed, res, thr, weighted)| {
-                let thr = if g.wmode == 4 && thr % 5 == 1 { 2 } else { thr };
+            12 => (prop_oneof![60 => tie, 10 => big, 30 => wtd, 1 => boundary_graph_strategy(&ALL_KINDS, me, &[0, 3], 6, 192)], any::<u64>(), prop_oneof![2 => Just(255u8), 1 => any::<u8>()], 0u8..5, any::<bool>()).prop_map(|(g, seed, res, thr, weighted)| {
+                let thr = if matches!(g.wmode, 4 | 7) && thr % 5 == 1 { 2 } else { thr };
                 DetCase::Louvain { g, seed, res, thr, weighted }
             }),
             2 => (0u16..=120, 1u16..999, any::<bool>(), any::<u64>()).prop_map(|(n, p_milli, directed, seed)| DetCase::Gnp { n, p_milli, directed, seed }),
@@ -263,7 +263,7 @@ impl Prop for C17 {
     fn check(&self, case: &DetCase) -> Outcome {
         let mut out = Outcome::new();
         let tag = match case {
-            DetCase::Louvain { g, weighted, .. } if g.wmode == 4 && *weighted => "louvain[weighted,non_dyadic_weights]",
+            DetCase::Louvain { g, weighted, .. } if matches!(g.wmode, 4 | 7) && *weighted => "louvain[weighted,non_dyadic_weights]",
             DetCase::Louvain { .. } => "louvain[exact_arithmetic]",
             DetCase::Gnp { .. } => "fast_gnp_random_graph",
             DetCase::Algos { .. } => "algorithms",
